@@ -382,6 +382,10 @@ func c11Numeric(p *chk.Prog, r *chk.Report) {
 			x.Check("poolCount:"+nm+":only-saturating-updates", pos, ok, "", "accumulator `"+nm+"` can hold the MaxInt64 sentinel and is added to without saturation: a later range wraps it to a negative count")
 		}
 		x.Check("poolCount:accumulators", f.Pos(), len(names) >= 3, "", "expected total, ipv4 and ipv6 accumulators")
+		// every CIDR of the pool contributes: the loop over p.CIDR is never left before its last element
+		for _, rs := range f.RangeLoops(func(e ast.Expr) bool { return f.MatchWith("P.CIDR", e, chk.H("P", isParamIdx(f, 0))) != nil }) {
+			x.Check("poolCount:every-cidr-counted", rs.Pos(), !loopLeavesEarly(f, f.Graph(), rs), "", "the count stops at some range (return / break inside the loop over the pool's CIDRs): the ranges listed after it are not counted")
+		}
 	}
 	sa := need(x, p, allocPkg, "", "saturatingAdd")
 	if sa != nil {
